@@ -292,7 +292,19 @@ def run_check(pid, tier, builder):
     os.makedirs(viol_dir, exist_ok=True)
 
     jobs = [j for j in P["jobs"] if tier in j.get("tiers", ("quick", "thorough"))]
-    harnesses = sorted(set(j["harness"] for j in jobs if "harness" in j) | set(P.get("extra_harnesses", [])))
+    # regression tier: saved cases (choice files; the header names the harness property and the generator size)
+    corpus = []
+    corpus_dir = os.path.join(VERIF, "corpus", pid)
+    if os.path.isdir(corpus_dir):
+        for fn in sorted(os.listdir(corpus_dir)):
+            if not fn.endswith(".choices"):
+                continue
+            with open(os.path.join(corpus_dir, fn), errors="replace") as fh:
+                m = re.search(r"prop=(\S+)", fh.readline())
+            cj = next((j for j in P["jobs"] if m and j.get("prop") == m.group(1) and "harness" in j), None)
+            if cj:
+                corpus.append((os.path.join(corpus_dir, fn), cj))
+    harnesses = sorted(set(j["harness"] for j in jobs if "harness" in j) | set(P.get("extra_harnesses", [])) | set(cj["harness"] for _, cj in corpus))
     builder.build(harnesses)
 
     # special (python-side) job kinds are delegated
@@ -323,6 +335,33 @@ def run_check(pid, tier, builder):
                 cmd += ["--known", known_sigs]
             cmd += j.get("args", [])
             workers.append(Worker(j, w, cmd, prefix, run_env(j.get("env"))))
+
+    # regression tier first: every saved case must pass
+    if corpus:
+        from concurrent.futures import ThreadPoolExecutor
+
+        def replay_saved(item):
+            k, (path, cj) = item
+            cmd = [builder.exe(cj["harness"]), "--prop", cj["prop"], "--replay", path, "--out", os.path.join(rundir, "corpus%d" % k)]
+            if known_sigs:
+                cmd += ["--known", known_sigs]
+            cmd += cj.get("args", [])
+            try:
+                r = subprocess.run(cmd, stdout=subprocess.PIPE, stderr=subprocess.STDOUT, text=True, errors="replace", env=run_env(cj.get("env")), cwd=rundir, timeout=900)
+                return path, cj, r.returncode, r.stdout
+            except subprocess.TimeoutExpired:
+                return path, cj, None, ""
+        with ThreadPoolExecutor(max_workers=JOBS) as ex:
+            for path, cj, rc, out in ex.map(replay_saved, enumerate(corpus)):
+                if rc is None:
+                    agg["inconclusive"].append("saved case %s did not finish in 900 s" % os.path.basename(path))
+                    continue
+                agg["counters"]["regression_cases_replayed"] = agg["counters"].get("regression_cases_replayed", 0) + 1
+                if rc != 0:
+                    pw = Worker(cj, -1, [], os.path.join(rundir, "corpus"), run_env(cj.get("env")))
+                    pw.rc = rc
+                    m = re.search(r"REPLAY-FAIL (.*)", out)
+                    failures.append((pw, "saved-case", path, m.group(1) if m else "", out))
 
     # run all workers, at most JOBS at a time
     timeout_s = P.get("timeout", {}).get(tier, 3600)
